@@ -392,3 +392,249 @@ pub fn tally(cases: &[Case]) -> Vec<String> {
     }
     t.into_iter().map(|(k, n)| format!("{:6} {}", n, k)).collect()
 }
+
+// ------------------------------------------------------------------ property oracle
+// Independent of the model: a reference sorted set per key (Redis semantics: members unique,
+// ordered by score then member bytes, Redis' rank-range rule, a refused command changes
+// nothing) is run beside the implementation's replies.  Deviations that belong to a
+// recorded class carry `class=<name>`; the reference then follows the implementation so
+// that one deviation is reported once.
+#[derive(Clone, PartialEq)]
+enum RefVal { Z(Vec<(Vec<u8>, f64)>), Other }
+fn zcmp(a: &(Vec<u8>, f64), b: &(Vec<u8>, f64)) -> std::cmp::Ordering {
+    a.1.partial_cmp(&b.1).unwrap_or(std::cmp::Ordering::Equal).then_with(|| a.0.cmp(&b.0))
+}
+fn zput(z: &mut Vec<(Vec<u8>, f64)>, m: &[u8], s: f64) -> bool {
+    let was = z.iter().position(|e| e.0 == m);
+    if let Some(p) = was { z.remove(p); }
+    let e = (m.to_vec(), s);
+    let pos = z.iter().position(|x| zcmp(x, &e) != std::cmp::Ordering::Less).unwrap_or(z.len());
+    z.insert(pos, e);
+    was.is_none()
+}
+fn redis_slice<T: Clone>(l: &[T], start: i128, stop: i128) -> Vec<T> {
+    let n = l.len() as i128;
+    let mut s = if start < 0 { start + n } else { start };
+    let mut e = if stop < 0 { stop + n } else { stop };
+    if s < 0 { s = 0; }
+    if s > e || s >= n { return vec![]; }
+    if e >= n { e = n - 1; }
+    l[s as usize..=e as usize].to_vec()
+}
+fn members_reply(l: &[(Vec<u8>, f64)], with_scores: bool) -> V {
+    let mut o = vec![];
+    for (m, s) in l { o.push(V::Bulk(m.clone())); if with_scores { o.push(V::Double(*s)); } }
+    V::Array(o)
+}
+fn same_reply(a: &V, b: &V) -> bool {
+    match (a, b) {
+        (V::Double(x), V::Double(y)) => x.to_bits() == y.to_bits() || (x.is_nan() && y.is_nan()),
+        (V::Array(x), V::Array(y)) => x.len() == y.len() && x.iter().zip(y).all(|(p, q)| same_reply(p, q)),
+        _ => a == b,
+    }
+}
+fn bulk(v: &V) -> Option<&[u8]> { match v { V::Bulk(b) => Some(b), _ => None } }
+fn int_arg(v: &V) -> Option<i128> { bulk(v).and_then(|b| std::str::from_utf8(b).ok().and_then(|s| s.parse::<i64>().ok())).map(|x| x as i128) }
+fn f_arg(v: &V) -> Option<f64> { bulk(v).and_then(parse_f64) }
+
+#[derive(Clone)]
+struct World {
+    db: std::collections::HashMap<Vec<u8>, RefVal>,
+    tainted: std::collections::HashSet<Vec<u8>>,   // keys that ever held NaN
+    partial_at: Option<usize>,                     // this world assumes a refused ZADD applied its first pairs
+}
+
+/// one reply checked against one world; returns the failures and, when a refused
+/// multi-member ZADD had valid leading pairs, the alternative world in which they were applied
+fn judge_step(w: &mut World, id: &str, k: usize, parts: &[V], reply: &V) -> (Vec<String>, Option<World>) {
+    let mut fails = vec![];
+    let mut fork = None;
+    let name = match parts.first() { Some(V::Bulk(b)) => b.to_ascii_uppercase(), _ => return (fails, fork) };
+    let is_err = matches!(reply, V::Error(_));
+    let key = parts.get(1).and_then(bulk).map(|b| b.to_vec());
+    let mut fail = |what: String, class: &str| {
+        fails.push(format!("FAIL case={} op={} {} {}{}", id, k, String::from_utf8_lossy(&name), what, if class.is_empty() { String::new() } else { format!(" class={}", class) }));
+    };
+    let with_scores = parts.len() == 5 && matches!(&parts[4], V::Bulk(o) if o.to_ascii_uppercase() == b"WITHSCORES");
+    // every score the implementation shows must be a number
+    fn has_nan(v: &V) -> bool { match v { V::Double(x) => x.is_nan(), V::Array(l) => l.iter().any(has_nan), _ => false } }
+    if has_nan(reply) { fail("a NaN score is shown".into(), "zset-nan"); if let Some(k) = &key { w.tainted.insert(k.clone()); } }
+    let key = match key { Some(k) => k, None => return (fails, fork) };
+    if w.tainted.contains(&key) && name.starts_with(b"Z") {
+        // a key that held NaN is not followed any further (recorded class)
+        return (fails, fork);
+    }
+    let cur = w.db.get(&key).cloned();
+    let zcur: Option<Vec<(Vec<u8>, f64)>> = match &cur { Some(RefVal::Z(z)) => Some(z.clone()), None => Some(vec![]), Some(RefVal::Other) => None };
+    macro_rules! zset_or_refused { () => { match zcur { Some(z) => z, None => { if !is_err { fail("wrong type not refused".into(), ""); } return (fails, fork) } } } }
+    match &name[..] {
+        b"SET" => { if !is_err { w.db.insert(key, RefVal::Other); } }
+        b"DEL" => { w.db.remove(&key); }
+        b"RENAME" => { if !is_err { if let (Some(v), Some(V::Bulk(dst))) = (w.db.remove(&key), parts.get(2)) { if w.tainted.remove(&key) { w.tainted.insert(dst.clone()); } w.db.insert(dst.clone(), v); } } }
+        b"ZADD" => {
+            if parts.len() < 4 || parts.len() % 2 != 0 { if !is_err { fail("arity not refused".into(), ""); } return (fails, fork); }
+            let z = zset_or_refused!();
+            // the whole command is valid iff every pair is
+            let mut pairs = vec![]; let mut bad_at = None;
+            for i in (2..parts.len()).step_by(2) {
+                match (f_arg(&parts[i]), bulk(&parts[i + 1])) {
+                    (Some(s), Some(m)) if !s.is_nan() => pairs.push((m.to_vec(), s)),
+                    (Some(s), Some(m)) => { pairs.push((m.to_vec(), s)); if bad_at.is_none() { bad_at = Some((i, true)); } }
+                    _ => { if bad_at.is_none() { bad_at = Some((i, false)); } break; }
+                }
+            }
+            let mut z2 = z.clone();
+            match bad_at {
+                None => {
+                    let mut added = 0; for (m, s) in &pairs { if zput(&mut z2, m, *s) { added += 1; } }
+                    if !same_reply(reply, &V::Int(added)) { fail(format!("answered {:?}, expected {}", reply, added), ""); }
+                    w.db.insert(key, RefVal::Z(z2));
+                }
+                Some((i, nan)) => {
+                    if !is_err {
+                        if nan { fail("a NaN score was accepted".into(), "zset-nan"); w.tainted.insert(key.clone()); for (m, s) in &pairs { zput(&mut z2, m, *s); } w.db.insert(key, RefVal::Z(z2)); }
+                        else { fail("an invalid pair was accepted".into(), ""); }
+                    } else if i > 2 {
+                        // refused: nothing may have been added; whether the first pairs were applied shows later
+                        for (m, s) in pairs.iter().take((i - 2) / 2) { zput(&mut z2, m, *s); }
+                        if z2 != z { let mut alt = w.clone(); alt.db.insert(key, RefVal::Z(z2)); if alt.partial_at.is_none() { alt.partial_at = Some(k); } fork = Some(alt); }
+                    }
+                }
+            }
+        }
+        b"ZREM" => {
+            if parts.len() < 3 { return (fails, fork); }
+            let mut z = zset_or_refused!();
+            let mut n = 0;
+            for p in &parts[2..] { if let Some(m) = bulk(p) { if let Some(ix) = z.iter().position(|e| e.0 == m) { z.remove(ix); n += 1; } } }
+            if !same_reply(reply, &V::Int(n)) { fail(format!("answered {:?}, expected {}", reply, n), ""); }
+            if z.is_empty() { w.db.remove(&key); } else { w.db.insert(key, RefVal::Z(z)); }
+        }
+        b"ZINCRBY" => {
+            if parts.len() != 4 { return (fails, fork); }
+            let (inc, m) = match (f_arg(&parts[2]), bulk(&parts[3])) { (Some(i), Some(m)) => (i, m.to_vec()), _ => { if !is_err { fail("invalid argument accepted".into(), ""); } return (fails, fork) } };
+            let mut z = zset_or_refused!();
+            let old = z.iter().find(|e| e.0 == m).map(|e| e.1);
+            let ns = old.map_or(inc, |o| o + inc);
+            if ns.is_nan() {
+                if !is_err { fail("an increment producing NaN was accepted".into(), "zset-nan"); w.tainted.insert(key.clone()); }
+                return (fails, fork);
+            }
+            if !same_reply(reply, &V::Double(ns)) { fail(format!("answered {:?}, expected {}", reply, ns), ""); }
+            zput(&mut z, &m, ns); w.db.insert(key, RefVal::Z(z));
+        }
+        b"ZPOPMIN" | b"ZPOPMAX" => {
+            if parts.len() > 3 { return (fails, fork); }
+            let count = if parts.len() == 3 { match bulk(&parts[2]).and_then(|b| std::str::from_utf8(b).ok().and_then(|s| s.parse::<u64>().ok())) { Some(n) => n, None => { if !is_err { fail("bad count accepted".into(), ""); } return (fails, fork) } } } else { 1 };
+            let mut z = zset_or_refused!();
+            let mut popped = vec![];
+            for _ in 0..count.min(z.len() as u64) { popped.push(if &name[..] == b"ZPOPMIN" { z.remove(0) } else { z.pop().unwrap() }); }
+            let exp = members_reply(&popped, true);
+            // an empty result is answered as a nil array (reply-shape deviation, not part of the property)
+            let ok = if popped.is_empty() { matches!(reply, V::NullArray) || matches!(reply, V::Array(l) if l.is_empty()) } else { same_reply(reply, &exp) };
+            if !ok { fail(format!("answered {:?}", reply), ""); }
+            if z.is_empty() { w.db.remove(&key); } else { w.db.insert(key, RefVal::Z(z)); }
+        }
+        b"ZSCORE" | b"ZCARD" | b"ZRANK" | b"ZREVRANK" | b"ZRANGE" | b"ZREVRANGE" | b"ZRANGEBYSCORE" | b"ZREVRANGEBYSCORE" | b"ZCOUNT" => {
+            if is_err { return (fails, fork); }   // refusals of reads are compared by the model only
+            let z = match zcur { Some(z) => z, None => { fail("wrong type not refused".into(), ""); return (fails, fork) } };
+            let n = z.len() as i128;
+            let exp: Option<(V, &str)> = match &name[..] {
+                b"ZSCORE" => parts.get(2).and_then(bulk).map(|m| (z.iter().find(|e| e.0 == m).map_or(V::NullBulk, |e| V::Double(e.1)), "")),
+                b"ZCARD" => Some((V::Int(n as i64), "")),
+                b"ZRANK" | b"ZREVRANK" => parts.get(2).and_then(bulk).map(|m| (match z.iter().position(|e| e.0 == m) {
+                    Some(p) => V::Int(if &name[..] == b"ZRANK" { p as i64 } else { (n - 1) as i64 - p as i64 }), None => V::NullBulk }, "")),
+                b"ZRANGE" | b"ZREVRANGE" => match (parts.get(2).and_then(int_arg), parts.get(3).and_then(int_arg)) {
+                    (Some(a), Some(b)) => {
+                        let rev = &name[..] == b"ZREVRANGE";
+                        let mut l = z.clone(); if rev { l.reverse(); }
+                        let si = if a < 0 { (n + a).max(0) } else { a };
+                        let class = if b < -n { "zrange-neg-stop" } else if rev && si >= n { "zrevrange-beyond" } else { "" };
+                        Some((members_reply(&redis_slice(&l, a, b), with_scores), class))
+                    }
+                    _ => None },
+                b"ZRANGEBYSCORE" | b"ZREVRANGEBYSCORE" | b"ZCOUNT" => match (parts.get(2).and_then(f_arg), parts.get(3).and_then(f_arg)) {
+                    (Some(a), Some(b)) => {
+                        let rev = &name[..] == b"ZREVRANGEBYSCORE";
+                        let (mn, mx) = if rev { (b, a) } else { (a, b) };
+                        if mn.is_nan() || mx.is_nan() { fail("a NaN bound was accepted".into(), "zbyscore-nan-bound"); None }
+                        else {
+                            let mut l: Vec<(Vec<u8>, f64)> = z.iter().filter(|e| mn <= e.1 && e.1 <= mx).cloned().collect();
+                            if rev { l.reverse(); }
+                            if &name[..] == b"ZCOUNT" { Some((V::Int(l.len() as i64), "")) } else { Some((members_reply(&l, with_scores), "")) }
+                        }
+                    }
+                    _ => None },
+                _ => None,
+            };
+            if let Some((e, class)) = exp { if !same_reply(reply, &e) { fail(format!("answered {:?}, the sorted set is {:?}", reply, z), class); } }
+        }
+        _ => {}
+    }
+    (fails, fork)
+}
+
+pub fn judge(c: &Case, outs: &[Vec<Tok>]) -> Vec<String> {
+    let mut fails = vec![];
+    if c.ops.first().map_or(false, |o| matches!(o.first(), Some(Tok::B(n)) if n.starts_with(b"SL"))) { return judge_sl(c, outs); }
+    // the candidate worlds: they differ in whether refused multi-member ZADDs applied their first pairs
+    let mut worlds = vec![World { db: Default::default(), tainted: Default::default(), partial_at: None }];
+    for (k, (op, out)) in c.ops.iter().zip(outs.iter()).enumerate() {
+        if tok_bytes(&op[0]) == b"ALIVE" { fails.push(format!("FAIL case={} op={} server died", c.id, k)); continue; }
+        if tok_bytes(&op[0]) != b"CMD" { continue; }
+        let mut pos = 3;
+        let parts = match V::dec(op, &mut pos) { Some(V::Array(p)) => p, _ => continue };
+        let mut p2 = 0;
+        let reply = match V::dec(out, &mut p2) { Some(r) => r, None => { fails.push(format!("FAIL case={} op={} no reply ({})", c.id, k, toks_to_line(out))); continue } };
+        let mut next: Vec<(World, Vec<String>)> = vec![];
+        for w in worlds.iter() {
+            let mut w2 = w.clone();
+            let (f, fork) = judge_step(&mut w2, &c.id, k, &parts, &reply);
+            next.push((w2, f));
+            if let Some(alt) = fork { next.push((alt, vec![])); }
+        }
+        // a world that explains the reply without an unclassified failure survives
+        let unclassified = |f: &Vec<String>| f.iter().any(|l| !l.contains(" class="));
+        let had_clean = worlds.iter().any(|w| w.partial_at.is_none());
+        if next.iter().any(|(_, f)| !unclassified(f)) { next.retain(|(_, f)| !unclassified(f)); }
+        let (first_fails, _) = (next[0].1.clone(), ());
+        fails.extend(first_fails);
+        worlds = next.into_iter().map(|(w, _)| w).collect();
+        if worlds.len() > 16 { worlds.truncate(16); }
+        if had_clean && worlds.iter().all(|w| w.partial_at.is_some()) {
+            let at = worlds[0].partial_at.unwrap();
+            fails.push(format!("FAIL case={} op={} ZADD refused multi-member ZADD applied its first pairs (seen at op {}) class=zadd-partial", c.id, at, k));
+        }
+    }
+    fails
+}
+
+/// skip-list histories: whatever the operations, every dump must show a chain ordered by
+/// (score, member) whose length equals `length`; without NaN: members unique, each with its
+/// indexed score and its rank equal to its position
+fn judge_sl(c: &Case, outs: &[Vec<Tok>]) -> Vec<String> {
+    let mut fails = vec![];
+    for (k, (op, out)) in c.ops.iter().zip(outs.iter()).enumerate() {
+        if out.first() == Some(&b("PANIC")) { fails.push(format!("FAIL case={} op={} panic", c.id, k)); continue; }
+        if tok_bytes(&op[0]) != b"SLDUMP" || out.len() < 2 { continue; }
+        let (len, n) = (tok_int(&out[0]), tok_int(&out[1]) as usize);
+        let items: Vec<(Vec<u8>, u64)> = (0..n).map(|j| (tok_bytes(&out[2 + 2 * j]).to_vec(), tok_int(&out[3 + 2 * j]) as u64)).collect();
+        let nan = items.iter().any(|e| f64::from_bits(e.1).is_nan());
+        let class = if nan { " class=zset-nan" } else { "" };
+        if len != n as i128 { fails.push(format!("FAIL case={} op={} length {} but {} nodes{}", c.id, k, len, n, class)); }
+        for w in items.windows(2) {
+            let (a, b2) = (f64::from_bits(w[0].1), f64::from_bits(w[1].1));
+            let ord = match a.partial_cmp(&b2) { Some(o) => o.then_with(|| w[0].0.cmp(&w[1].0)), None => if a.is_nan() && b2.is_nan() { w[0].0.cmp(&w[1].0) } else if a.is_nan() { std::cmp::Ordering::Greater } else { std::cmp::Ordering::Less } };
+            if ord == std::cmp::Ordering::Greater || (ord == std::cmp::Ordering::Equal && !nan) { fails.push(format!("FAIL case={} op={} chain not strictly ordered{}", c.id, k, class)); }
+        }
+        // per node: get_score, get_rank
+        let mut p = 2 + 2 * n;
+        for (j, it) in items.iter().enumerate() {
+            if p >= out.len() { break; }
+            let sc = if tok_int(&out[p]) == 1 { p += 2; Some(tok_int(&out[p - 1]) as u64) } else { p += 1; None };
+            let rk = if tok_int(&out[p]) == 1 { p += 2; Some(tok_int(&out[p - 1])) } else { p += 1; None };
+            if !nan && (sc != Some(it.1) || rk != Some(j as i128)) { fails.push(format!("FAIL case={} op={} node {} score/rank lookup disagrees with the chain", c.id, k, j)); }
+        }
+    }
+    fails
+}
